@@ -2787,6 +2787,162 @@ def r04_9(prog, rep, rid='R04.9'):
 
 
 # ------------------------------------------------------------------------------
+# R04.10  a busy node still gives what it has to a task that may be spread.
+# For an MPI task schedule_task asks every node for "up to n_slots" slots
+# (`partial` set: first / last node, or scattered mode) and adds up what the
+# nodes give; a task waiting alone is started after a release only because the
+# free fragments of several nodes are added up.  So with `partial` set the
+# per-node search may leave without searching only for a reason that excludes
+# even ONE slot.  An exit before the search which is decided by comparing what
+# the node has with an amount that grows with the number of slots asked for
+# ("the node cannot serve all n_slots") is right only under `not partial`.
+#
+def _param_flow(g, d, params, expr, at, seen=None, depth=8):
+    """the parameters whose value flows into `expr` evaluated at cfg node
+    `at`: through the definitions that reach `at` (flow sensitive: a later
+    `x = min(x, n)` does not count for an earlier test of x); bindings
+    without a value (loop variables, tuple / augmented assignments) fall back
+    to the flow-insensitive closure"""
+    seen = set() if seen is None else seen
+    out = set()
+    for x in walk(expr):
+        if not isinstance(x, ast.Name) or not isinstance(x.ctx, ast.Load):
+            continue
+        nm = x.id
+        defs = reaching_defs(g, nm, at.id)
+        if nm in params:
+            ids = {n.id for n, v in defs}
+            if not ids or at.id in g.reachable(g.entry.id, skip_nodes=ids) \
+                    or at.id == g.entry.id:
+                out.add(nm)
+        for n, v in defs:
+            if (nm, n.id) in seen:
+                continue
+            seen.add((nm, n.id))
+            if v is not None and depth > 0 and \
+                    not isinstance(n.ast, ast.AugAssign):
+                out |= _param_flow(g, d, params, v, n, seen, depth - 1)
+            else:
+                out |= {q for q in params if q in d.closure(nm)} | (
+                    {nm} & set(params))
+    return out
+
+
+def _resolve_local(g, e, at, depth=4):
+    """(expression, cfg node at which it is evaluated): a plain local with one
+    reaching definition is replaced by the value it was given"""
+    while isinstance(e, ast.Name) and depth > 0:
+        ds = reaching_defs(g, e.id, at.id)
+        if len(ds) != 1 or ds[0][1] is None or \
+                isinstance(ds[0][0].ast, ast.AugAssign):
+            break
+        e, at, depth = ds[0][1], ds[0][0], depth - 1
+    return e, at
+
+
+def _ordering_compares(e, out):
+    """the ordering comparisons below not / and / or / bool() of a test"""
+    if isinstance(e, ast.UnaryOp) and isinstance(e.op, ast.Not):
+        _ordering_compares(e.operand, out)
+    elif isinstance(e, ast.BoolOp):
+        for v in e.values:
+            _ordering_compares(v, out)
+    elif _is_bool_call(e):
+        _ordering_compares(e.args[0], out)
+    elif isinstance(e, ast.Compare) and len(e.ops) == 1 and \
+            type(e.ops[0]) in _ORDER:
+        out.append(e)
+    return out
+
+
+def r04_10(prog, rep, rid='R04.10'):
+    from .c01 import find_resources_info
+    rep.rule(rid, 'with `partial` set _find_resources leaves before the '
+             'search only for a reason that excludes even one slot: no early '
+             'exit is decided by comparing what the node has with an amount '
+             'that grows with n_slots', minimum=2)
+    base, classes = sched_classes(prog)
+    for K in classes:
+        f, g, d, nodevar, res, appends = find_resources_info(prog, K)
+        rep.saw(f)
+        params = [q for q in f.params if q != 'self']
+        if 'partial' not in params or 'n_slots' not in params:
+            raise AnalysisError('UNRECOGNISED-IDIOM %s: parameters partial / '
+                                'n_slots missing' % f.where)
+        if any(isinstance(x, ast.Name) and x.id == 'partial' and
+               isinstance(x.ctx, (ast.Store, ast.Del)) for x in walk(f.node)):
+            raise AnalysisError('UNRECOGNISED-IDIOM %s: `partial` is rebound'
+                                % f.where)
+        defs = _single_defs(f)
+        # the paths a call with partial=True can take
+        pruned = []
+        for n in g.nodes:
+            if n.kind != 'test':
+                continue
+            t = _truth(_subst(n.ast, defs), {'partial': 'True'})
+            if t is not None:
+                pruned.append((n.id, 'F' if t else 'T'))
+        # the search: the loops which append to the result (the appends
+        # themselves where there is no loop)
+        search = {a.loops[0] if a.loops else a.id for a in appends}
+        early = g.reachable(g.entry.id, skip_nodes=search, skip_edges=pruned)
+        exits = [n for n in g.stmt_nodes() if n.kind == 'stmt' and
+                 n.id in early and isinstance(n.ast, (ast.Return, ast.Raise))]
+
+        def capacity(e, at):
+            """the size of one of the node's lists (not what is free of it)"""
+            e, at = _resolve_local(g, e, at)
+            return isinstance(e, ast.Call) and dotted(e.func) == 'len' and \
+                len(e.args) == 1 and root_name(e.args[0]) == nodevar
+        nbad = 0
+        for x in exits:
+            for tid, lab in guards(g, x.id):
+                tn = g.nodes[tid]
+                te, tat = _resolve_local(g, tn.ast, tn)
+                for cmp_ in _ordering_compares(te, []):
+                    l, r = cmp_.left, cmp_.comparators[0]
+                    if isinstance(l, ast.Constant) or \
+                            isinstance(r, ast.Constant):
+                        continue           # `max_slots < 1`: not even one
+                    if capacity(l, tat) or capacity(r, tat):
+                        continue
+                    fl = _param_flow(g, d, params, l, tat)
+                    fr = _param_flow(g, d, params, r, tat)
+                    if 'n_slots' not in fl | fr or nodevar not in fl | fr:
+                        continue
+                    nbad += 1
+                    kind = 'returns `%s`' % short(x.ast.value, 20) \
+                        if isinstance(x.ast, ast.Return) else 'raises'
+                    rep.bad(rid, f, cmp_,
+                            '%s._find_resources %s before it has searched '
+                            'the node when `%s` comes out %s - a comparison '
+                            'of what the node `%s` has with an amount that '
+                            'depends on `n_slots` - also when `partial` is '
+                            'set.  With `partial` the method has to give as '
+                            'many slots as the node can serve (fewer than '
+                            'n_slots): schedule_task adds up the fragments of '
+                            'several nodes for an MPI task.  A node that '
+                            'cannot serve all n_slots is now passed over, so '
+                            'a task that fits the free cores of two busy '
+                            'nodes together is not placed and keeps waiting'
+                            % (K.name, kind, short(cmp_, 60),
+                               'true' if lab == 'T' else 'false', nodevar),
+                            f.loc(cmp_),
+                            history='2 nodes x 4 cores, four 2-core tasks run '
+                            '(two per node); an MPI task with 4 ranks x 1 '
+                            'core waits alone; one task of each node '
+                            'completes: 2 + 2 cores are free, enough for the '
+                            '4 ranks (2 slots from each node), but each node '
+                            'is refused because it has fewer than 4 free '
+                            'cores - the task is not started')
+        if not nbad:
+            rep.ok(rid, f, '%s: none of the %d exit(s) before the search that '
+                   'a call with partial=True can reach is decided by a '
+                   'comparison of the node\'s resources with an amount '
+                   'depending on n_slots' % (K.name, len(exits)), f.loc())
+
+
+# ------------------------------------------------------------------------------
 #
 def run(prog, rep, tier):
     rep.decided = ('exactly one outcome per task on every path of the intake '
@@ -2828,6 +2984,7 @@ def run(prog, rep, tier):
     rep.attempt(r04_7, prog, rep)
     rep.attempt(r04_8, prog, rep)
     rep.attempt(r04_9, prog, rep)
+    rep.attempt(r04_10, prog, rep)
     # the counter the rule R04.2 rests on
     from .c03 import r03_3
     rep.attempt(r03_3, prog, rep, rid='R03.3')
@@ -2869,6 +3026,16 @@ _RES_DEF = ("    @staticmethod\n    def _get_resources(td):\n\n"
             "        return {'cpu': td['ranks'] * td['cores_per_rank'],\n"
             "                'gpu': td['ranks'] * td['gpus_per_rank']}\n\n\n"
             "    # --------------------------------------------------------------------------\n    #\n")
+
+_ISC_OLD = "            tid = task['uid']\n\n            if tid not in self._cancel_list:\n                return False\n\n            if 'state' in task:\n                self.advance(task, rps.CANCELED, publish=True, push=False)\n\n            # remove from cancel list\n            self._cancel_list.remove(tid)\n\n            return True\n"
+_ISC_RES = "            tid = task['uid']\n            res = False\n\n            if tid in self._cancel_list:\n\n                if 'state' in task:\n                    self.advance(task, rps.CANCELED, publish=True, push=False)\n\n                self._cancel_list.remove(tid)\n                res = True\n\n            return res\n"
+_FR_ANCH = "        # find at most `n_slots`\n        loop_core_idx = 0\n"
+_FR_JNP = "        if not partial:\n            if alc_slots < n_slots:\n                return None\n"
+
+
+def _fr_pre(txt):
+    return [(_C, _FR_ANCH, txt + "\n" + _FR_ANCH)]
+
 
 MUTATIONS = [
     dict(name='R04.1 invalid-ranks task failed and scheduled (F10 reverted)', rules=('R04.1',), edits=[
@@ -3007,6 +3174,26 @@ MUTATIONS = [
     dict(name='R04.1 resources of the placed tasks through a helper (seed C04-r9 shape); new pool built from the placed tasks', rules=('R04.1',), edits=[
         (_B, _RES_OLD, _RES_NEW), (_B, _FAILDEF, _RES_DEF + _FAILDEF),
         (_B, _NEWPOOL, _NEWPOOL.replace('(unscheduled + to_wait)', '(scheduled + to_wait)'))]),
+    # --- R04.7: the answer after the hand-on
+    dict(name='R04.7 is_canceled hands the task on and falls off the end: answers None (seed C04-i3)', rules=('R04.7',), edits=[
+        (_U, "            self._cancel_list.remove(tid)\n\n            return True\n", "            self._cancel_list.remove(tid)\n")]),
+    dict(name='R04.7 is_canceled hands the task on and answers False', rules=('R04.7',), edits=[
+        (_U, "            self._cancel_list.remove(tid)\n\n            return True\n", "            self._cancel_list.remove(tid)\n\n            return False\n")]),
+    dict(name='R04.7 is_canceled with a result local which is never set to True', rules=('R04.7',), edits=[
+        (_U, _ISC_OLD, _ISC_RES.replace("                res = True\n", ""))]),
+    # --- R04.10
+    dict(name='R04.10 fast path: node with fewer free cores than all n_slots need is refused, partial ignored (seed C04-i5)', rules=('R04.10',), edits=_fr_pre(
+        "        # fast path: skip the search on nodes which are too busy\n        if node['cores'].count(rpc.FREE) < n_slots * cores_per_slot:\n            return None\n")),
+    dict(name='R04.10 fast path with hoisted operands, returns the empty list', rules=('R04.10',), edits=_fr_pre(
+        "        free = sum(1 for c in node['cores'] if c == rpc.FREE)\n        need = n_slots * cores_per_slot\n        too_busy = free < need\n        if too_busy:\n            return []\n")),
+    dict(name='R04.10 the same fast path for memory', rules=('R04.10',), edits=_fr_pre(
+        "        if mem_per_slot and node['mem'] < n_slots * mem_per_slot:\n            return None\n")),
+    dict(name='R04.10 node refused when lfs / mem cap the slots below n_slots', rules=('R04.10',), edits=_fr_pre(
+        "        if max_slots < n_slots:\n            return None\n")),
+    dict(name='R04.10 fast path applied to partial searches only (polarity)', rules=('R04.10',), edits=_fr_pre(
+        "        if partial and node['cores'].count(rpc.FREE) < n_slots * cores_per_slot:\n            return None\n")),
+    dict(name='R04.10 jsrun: the enough-for-all test no longer under `not partial`', rules=('R04.10',), edits=[
+        (_J, _FR_JNP, "        if alc_slots < n_slots:\n            return None\n")]),
 ]
 
 SILENT = [
@@ -3126,4 +3313,27 @@ SILENT = [
                        "                task['$set']      = ['resources']\n"
                        "                task['resources'] = dict(cpu=task['description']['ranks'] * task['description']['cores_per_rank'],\n"
                        "                                         gpu=task['description']['ranks'] * task['description']['gpus_per_rank'])\n")]),
+    # --- is_canceled with a result local (R04.7)
+    dict(name='is_canceled with a result local set after the hand-on', edits=[
+        (_U, _ISC_OLD, _ISC_RES)]),
+    # --- early exits of _find_resources (R04.10)
+    dict(name='fast path for too busy nodes, only when not partial', edits=_fr_pre(
+        "        if not partial and node['cores'].count(rpc.FREE) < n_slots * cores_per_slot:\n            return None\n")),
+    dict(name='fast path with hoisted operands, strictness tested in a nested if', edits=_fr_pre(
+        "        strict = not partial\n        free = node['cores'].count(rpc.FREE)\n        if free < n_slots * cores_per_slot:\n            if strict:\n                return None\n")),
+    dict(name='fast path under `partial is False`', edits=_fr_pre(
+        "        if partial is False:\n            if node['cores'].count(rpc.FREE) < n_slots * cores_per_slot:\n                return None\n")),
+    dict(name='fast path: not even one slot fits the free cores', edits=_fr_pre(
+        "        if node['cores'].count(rpc.FREE) < cores_per_slot:\n            return None\n")),
+    dict(name='fast path: lfs / mem leave no slot at all', edits=_fr_pre(
+        "        if max_slots < 1:\n            return None\n")),
+    dict(name='fast path: no slot possible, empty list returned', edits=_fr_pre(
+        "        if not max_slots:\n            return []\n")),
+    dict(name='sanity check of the request against the size of the node', edits=_fr_pre(
+        "        if n_slots * cores_per_slot > len(node['cores']):\n            raise ValueError('request exceeds the node size')\n"),
+         note='n_slots <= slots_per_node = cores_per_node // cores_per_slot: never taken'),
+    dict(name='jsrun: enough-for-all test and `not partial` in one condition', edits=[
+        (_J, _FR_JNP, "        if not partial and alc_slots < n_slots:\n            return None\n")]),
+    dict(name='jsrun: enough-for-all test in the else branch of `if partial`', edits=[
+        (_J, _FR_JNP, "        if partial:\n            pass\n        elif alc_slots < n_slots:\n            return None\n")]),
 ]
